@@ -12,7 +12,7 @@ import (
 func init() {
 	props["C18"] = &propCheck{
 		lean:    []string{"JSight.Props.C18"},
-		exes:    []string{},
+		exes:    []string{"jsight-ctx"},
 		run:     runC18,
 		assume:  []string{"the ban check of addDirective (catalog phase) is redundant after the keyword-time check and is not modelled", "file access before the ban is observed with a canary, not traced"},
 		rule:    "all 30 singleton ban sets and sampled larger ones x generated documents with and without the banned kinds (written directly, brought in by PASTE, in an included file); non-trivial = non-empty ban set and a document with >= 3 directive kinds; distinct = distinct (ban set, document)",
@@ -46,6 +46,7 @@ func kindsIn(doc []byte) map[directive.Enumeration]int {
 func runC18(ctx *Ctx) {
 	r := ctx.Rng.Fork()
 	banCorrespondence(ctx, r, ctx.Budget(20000, 500000))
+	includeBanCorrespondence(ctx, r, ctx.Budget(1500, 60000))
 	n := ctx.Budget(120, 5000)
 	for i := 0; i < n && len(ctx.Violations) < 10; i++ {
 		m := GenModel(r)
